@@ -185,10 +185,12 @@ def apply_hist(state, var, hist=None):
                         names = np.array([f"w{i}" for i in range(real.num_wann)])
                         real.wannier_names = names.copy()
                     W.under_test(real.reorder, p0)
-                    if names is not None and last:
+                    if names is not None:
                         got = W.private("wannier_names", lambda: list(real.wannier_names))
-                        if got is not None and got != list(names[p0]):
+                        if last and got is not None and got != list(names[p0]):
                             info["names_diff"] = dict(expected=list(names[p0]), got=got)
+                        if hasattr(real, "wannier_names"):
+                            del real.wannier_names                 # the harness put them there; later operations do not maintain them
                     if info["ss_exp"] is not None:
                         info["ss_exp"] = info["ss_exp"][p0][:, p0]
                     info["p0"] = p0
@@ -229,7 +231,7 @@ def apply_hist(state, var, hist=None):
                     before0, before1 = W.project(real)[0], W.project(s1)[0]
                     itp = W.under_test(SystemInterpolator, real, s1, use_pointgroup=upg) if upg != 1 else W.under_test(SystemInterpolator, real, s1)
                     if (var["h"] >> 1) & 1:                        # re-use: an earlier result, spoiled, must not influence the next one
-                        first = W.under_test(itp.interpolate, 0.5)
+                        first = W.under_test(itp.interpolate, op["a"] / op["den"])      # the same alpha: a result that aliases the interpolator's own data shows
                         W.setup(_mutate, first)
                         info["reused"] = True
                     res = W.under_test(itp.interpolate, op["a"] / op["den"])
